@@ -559,6 +559,9 @@ impl<'tcx> Cx<'tcx> {
                     if adt.is_enum() {
                         f.push(("enum", s(defstr(tcx, adt.did()))));
                         f.push(("variants", J::Arr(adt.variants().iter().map(|v| s(v.name.to_string())).collect())));
+                        // the discriminant *values* (bit patterns, as SwitchInt tests them): not the variant indices for
+                        // enums with explicit discriminants (core::cmp::Ordering = -1, 0, 1)
+                        f.push(("discrs", J::Arr(adt.discriminants(tcx).map(|(_, d)| J::Int(d.val as i128)).collect())));
                     }
                 }
                 obj(f)
